@@ -3,6 +3,7 @@ Helper lemmas for C16: a class definition has at most as many ranges as its clas
 consecutive glyphs (the bound behind `ClassDefSizeEstimator::increment_class_def_size`).
 -/
 import FontVerif.Lemmas.LayoutSizes
+import FontVerif.Lemmas.SubsetLayoutClassDef
 set_option linter.unusedVariables false
 set_option linter.unusedSimpArgs false
 namespace FontVerif.Layout
@@ -164,5 +165,194 @@ theorem iterClassRanges_le (K : List Nat) (items : List (Nat × Nat))
     have hsum := sum_add_indicator (restRuns c g rest) c K (hK (g, c) (List.mem_cons_self ..))
     rw [← sum_congr_map K hterm] at hsum
     omega
+
+theorem sorted_ext : ∀ (l1 l2 : List Nat), l1.Pairwise (· < ·) → l2.Pairwise (· < ·) →
+    (∀ x, x ∈ l1 ↔ x ∈ l2) → l1 = l2 := by
+  intro l1
+  induction l1 with
+  | nil =>
+    intro l2 _ _ h
+    cases l2 with
+    | nil => rfl
+    | cons b u => exact absurd ((h b).mpr (List.mem_cons_self ..)) (by simp)
+  | cons a t ih =>
+    intro l2 h1 h2 h
+    cases l2 with
+    | nil => exact absurd ((h a).mp (List.mem_cons_self ..)) (by simp)
+    | cons b u =>
+      rw [List.pairwise_cons] at h1 h2
+      have hab : a = b := by
+        rcases List.mem_cons.mp ((h a).mp (List.mem_cons_self ..)) with e | e
+        · exact e
+        · rcases List.mem_cons.mp ((h b).mpr (List.mem_cons_self ..)) with e' | e'
+          · exact e'.symm
+          · have := h2.1 a e; have := h1.1 b e'; omega
+      subst hab
+      congr 1
+      apply ih u h1.2 h2.2
+      intro x
+      constructor
+      · intro hx
+        rcases List.mem_cons.mp ((h x).mp (List.mem_cons_of_mem _ hx)) with e | e
+        · have := h1.1 x hx; omega
+        · exact e
+      · intro hx
+        rcases List.mem_cons.mp ((h x).mpr (List.mem_cons_of_mem _ hx)) with e | e
+        · have := h2.1 x hx; omega
+        · exact e
+
+/-- `split_off_ppf2`'s class map for the piece `s..t` -/
+def pieceClassMap (cov : Coverage) (cd : ClassDef) (s t : Nat) : List (Nat × Nat) :=
+  cov.glyphs.filterMap (fun g =>
+    let c := cd.get g
+    if s ≤ c ∧ c < t then some (g, c - s) else none)
+
+theorem mem_pieceClassMap (cov : Coverage) (cd : ClassDef) (s t : Nat) (p : Nat × Nat) :
+    p ∈ pieceClassMap cov cd s t ↔ p.1 ∈ cov.glyphs ∧ s ≤ cd.get p.1 ∧ cd.get p.1 < t ∧ p.2 = cd.get p.1 - s := by
+  unfold pieceClassMap
+  simp only [List.mem_filterMap]
+  constructor
+  · rintro ⟨g, hg, h⟩
+    split at h
+    · rename_i hc
+      cases h
+      exact ⟨hg, hc.1, hc.2, rfl⟩
+    · cases h
+  · rintro ⟨h1, h2, h3, h4⟩
+    refine ⟨p.1, h1, ?_⟩
+    simp only [h2, h3, and_self, ↓reduceIte]
+    rw [← h4]
+
+/-- the glyphs of new class `k ≠ 0` in the piece's class definition are the glyphs the estimator
+keeps for the original class `s + k` -/
+theorem keysOf_collectItems_piece (cov : Coverage) (cd : ClassDef) (s t k : Nat) (hk : k ≠ 0)
+    (hkt : s + k < t) :
+    keysOf k (collectItems (pieceClassMap cov cd s t)) = (⟨gcOf cov cd⟩ : Ppf2Est).glyphsOf (s + k) := by
+  have hsorted := collectItems_sorted (pieceClassMap cov cd s t)
+  apply sorted_ext
+  · unfold keysOf
+    rw [List.pairwise_map]
+    exact (hsorted.filter _).imp (fun h => h)
+  · exact sortDedup_pairwise _
+  · intro x
+    unfold Ppf2Est.glyphsOf
+    rw [mem_sortDedup]
+    have hget := itemGet_collectItems (pieceClassMap cov cd s t) x
+    constructor
+    · intro hx
+      unfold keysOf at hx
+      obtain ⟨p, hp, rfl⟩ := List.mem_map.mp hx
+      obtain ⟨hp1, hp2⟩ := List.mem_filter.mp hp
+      have hp2' : p.2 = k := by simpa using hp2
+      have hig : itemGet p.1 (collectItems (pieceClassMap cov cd s t)) = some k :=
+        (FontVerif.SubsetLayout.itemGet_some_iff hsorted p.1 k).mpr (by rw [← hp2']; exact hp1)
+      rw [hig] at hget
+      simp only [Option.getD_some] at hget
+      -- some pair of the class map names the glyph, else the assigned class would be 0
+      have hex : ∃ q ∈ pieceClassMap cov cd s t, q.1 = p.1 := by
+        apply Classical.byContradiction
+        intro hno
+        have := assignedClass_none (ps := pieceClassMap cov cd s t) (g := p.1)
+          (fun q hq e => hno ⟨q, hq, e⟩)
+        omega
+      obtain ⟨q, hq, hq1⟩ := hex
+      obtain ⟨m1, m2, m3, m4⟩ := (mem_pieceClassMap cov cd s t q).mp hq
+      have hall : ∀ r ∈ pieceClassMap cov cd s t, r.1 = p.1 → r.2 = cd.get p.1 - s := by
+        intro r hr hr1
+        have := ((mem_pieceClassMap cov cd s t r).mp hr).2.2.2
+        rw [this, hr1]
+      have := assignedClass_const hall ⟨q, hq, hq1⟩
+      rw [hq1] at m1 m2 m3
+      refine List.mem_map.mpr ⟨(p.1, cd.get p.1), List.mem_filter.mpr ⟨?_, ?_⟩, rfl⟩
+      · exact List.mem_map.mpr ⟨p.1, m1, rfl⟩
+      · simp; omega
+    · intro hx
+      obtain ⟨p, hp, rfl⟩ := List.mem_map.mp hx
+      obtain ⟨hp1, hp2⟩ := List.mem_filter.mp hp
+      unfold gcOf at hp1
+      obtain ⟨g, hg, rfl⟩ := List.mem_map.mp hp1
+      simp only [beq_iff_eq] at hp2
+      simp only at hget ⊢
+      have hmem : (g, k) ∈ pieceClassMap cov cd s t :=
+        (mem_pieceClassMap cov cd s t (g, k)).mpr ⟨hg, by simp only; omega, by simp only; omega, by simp only; omega⟩
+      have hall : ∀ r ∈ pieceClassMap cov cd s t, r.1 = g → r.2 = k := by
+        intro r hr hr1
+        have := ((mem_pieceClassMap cov cd s t r).mp hr).2.2.2
+        rw [this, hr1]; omega
+      have hac := assignedClass_const hall ⟨(g, k), hmem, rfl⟩
+      have hget' := itemGet_collectItems (pieceClassMap cov cd s t) g
+      rw [hac] at hget'
+      have hig : itemGet g (collectItems (pieceClassMap cov cd s t)) = some k := by
+        cases hi : itemGet g (collectItems (pieceClassMap cov cd s t)) with
+        | none => rw [hi] at hget'; simp at hget'; exact absurd hget'.symm hk
+        | some v => rw [hi] at hget'; simp at hget'; rw [hget']
+      have := (FontVerif.SubsetLayout.itemGet_some_iff hsorted g k).mp hig
+      unfold keysOf
+      exact List.mem_map.mpr ⟨(g, k), List.mem_filter.mpr ⟨this, by simp⟩, rfl⟩
+
+theorem itemGet_collectItems_some (ps : List (Nat × Nat)) (x v : Nat)
+    (h : itemGet x (collectItems ps) = some v) : ∃ p ∈ ps, p.1 = x ∧ p.2 = v ∧ v ≠ 0 := by
+  unfold collectItems at h
+  rw [itemGet_foldl] at h
+  cases hf : (ps.filter (fun p => p.2 != 0)).reverse.find? (fun p => p.1 == x) with
+  | none => rw [hf] at h; simp [itemGet] at h
+  | some p =>
+    rw [hf] at h
+    simp only [Option.some.injEq] at h
+    have hm := List.mem_filter.mp (List.mem_reverse.mp (List.mem_of_find?_eq_some hf))
+    have hx : p.1 = x := by simpa using List.find?_some hf
+    refine ⟨p, hm.1, hx, h, ?_⟩
+    rw [← h]; simpa using hm.2
+
+theorem sum_scaled_le (f G : Nat → Nat) : ∀ (K : List Nat), (∀ k ∈ K, 6 * f k ≤ G k) →
+    6 * (K.map f).sum ≤ (K.map G).sum := by
+  intro K
+  induction K with
+  | nil => intro _; simp
+  | cons x xs ih =>
+    intro h
+    simp only [List.map_cons, List.sum_cons]
+    have := h x (List.mem_cons_self ..)
+    have := ih (fun k hk => h k (List.mem_cons_of_mem _ hk))
+    omega
+
+/-- **the class-definition estimate is sound**: the class definition 1 `split_off_ppf2` builds for
+the piece `s..t` has at most as many ranges as the estimator's per-class run counts add up to -/
+theorem ppf2_cd1_ranges_le (cov : Coverage) (cd : ClassDef) (s t : Nat) :
+    4 + 6 * (iterClassRanges (collectItems (pieceClassMap cov cd s t))).length ≤
+      ppf2Cd1Estimate ⟨gcOf cov cd⟩ s t := by
+  have hsorted := collectItems_sorted (pieceClassMap cov cd s t)
+  have hitem : ∀ p ∈ collectItems (pieceClassMap cov cd s t), p.2 ≠ 0 ∧ p.2 < t - s := by
+    intro p hp
+    have hig := (FontVerif.SubsetLayout.itemGet_some_iff hsorted p.1 p.2).mpr hp
+    obtain ⟨q, hq, hq1, hq2, hnz⟩ := itemGet_collectItems_some _ _ _ hig
+    obtain ⟨_, m2, m3, m4⟩ := (mem_pieceClassMap cov cd s t q).mp hq
+    exact ⟨hnz, by omega⟩
+  have hle := iterClassRanges_le (List.range (t - s)) (collectItems (pieceClassMap cov cd s t))
+    (by
+      have : (collectItems (pieceClassMap cov cd s t)).Pairwise (fun a b => a.1 < b.1) := hsorted
+      rw [List.pairwise_map]; exact this)
+    (fun p hp => List.mem_range.mpr (hitem p hp).2)
+  unfold ppf2Cd1Estimate
+  rw [List.range'_eq_map_range, List.map_map]
+  have hsum := sum_scaled_le (fun k => countRanges (keysOf k (collectItems (pieceClassMap cov cd s t))))
+    ((⟨gcOf cov cd⟩ : Ppf2Est).incClassDef ∘ fun x => s + x) (List.range (t - s)) (by
+      intro k hk
+      have hkt : k < t - s := List.mem_range.mp hk
+      simp only [Function.comp]
+      unfold Ppf2Est.incClassDef
+      by_cases hk0 : k = 0
+      · subst hk0
+        have : keysOf 0 (collectItems (pieceClassMap cov cd s t)) = [] := by
+          unfold keysOf
+          rw [List.map_eq_nil_iff, List.filter_eq_nil_iff]
+          intro p hp
+          have := (hitem p hp).1
+          simpa using this
+        rw [this]; simp [countRanges]
+      · have hne : ¬ s + k = 0 := by omega
+        rw [if_neg hne, keysOf_collectItems_piece cov cd s t k hk0 (by omega)]
+        exact Nat.le_refl _)
+  omega
 
 end FontVerif.Layout
